@@ -2823,3 +2823,74 @@ twin('C19', 'update-copies-foreign-buckets', FSIPY, 'fsIndex.update',
         for k, v in mapping.items():
             self[ensure_bytes(k)] = v
 ''')
+
+# ---- round 9
+breaker('C06', 'undo-blob-copy-before-refusal', 'C06.R14', FSPY,
+        'FileStorage._txn_undo_write',
+        '''                            blobs.append((h.oid, userial))
+''', '''                            tmp = mktemp(dir=self.fshelper.temp_dir)
+                            with self.openCommittedBlobFile(
+                                    h.oid, userial) as sfp:
+                                with open(tmp, 'wb') as dfp:
+                                    cp(sfp, dfp)
+                            self._blob_storeblob(h.oid, self._tid, tmp)
+''')
+twin('C06', 'undo-blob-copies-worked-off-by-entry', FSPY,
+     'FileStorage._txn_undo_write',
+     '''        for oid, userial in blobs:
+            tmp = mktemp(dir=self.fshelper.temp_dir)
+''', '''        for entry in blobs:
+            oid, userial = entry
+            tmp = mktemp(dir=self.fshelper.temp_dir)
+''')
+breaker('C13', 'undo-blob-copies-never-worked-off', 'C13.R10', FSPY,
+        'FileStorage._txn_undo_write',
+        '''        if failures:
+            raise MultipleUndoErrors(list(failures.items()))
+
+        for oid, userial in blobs:
+''', '''        if failures:
+            raise MultipleUndoErrors(list(failures.items()))
+        if len(tindex) > 1:
+            return tindex
+
+        for oid, userial in blobs:
+''')
+breaker('C20', 'demo-begin-empties-stored-ids-while-waiting', 'C20.R7', DSPY,
+        'DemoStorage.tpc_begin',
+        '''                    "Duplicate tpc_begin calls for same transaction")
+
+        self._commit_lock.acquire()
+''', '''                    "Duplicate tpc_begin calls for same transaction")
+            self._stored_oids = set()
+
+        self._commit_lock.acquire()
+''')
+twin('C20', 'demo-begin-empties-stored-ids-first-thing-after-acquire', DSPY,
+     'DemoStorage.tpc_begin',
+     '''            self._transaction = transaction
+            if (a[0] if a else k.get('tid')) is None:''',
+     '''            self._transaction = transaction
+            self._stored_oids = set()
+            if (a[0] if a else k.get('tid')) is None:''')
+breaker('C09', 'packer-indexes-records-with-data-only', 'C09.R12', PACKPY,
+        'FileStoragePacker.writePackedDataRecord',
+        '''        self.index[h.oid] = pos
+        self._tfile.write(h.asString())
+        self._tfile.write(data)
+        if not data:
+''', '''        self._tfile.write(h.asString())
+        self._tfile.write(data)
+        if data:
+            self.index[h.oid] = pos
+        if not data:
+''')
+twin('C09', 'packer-indexes-after-writing', PACKPY,
+     'FileStoragePacker.writePackedDataRecord',
+     '''        self.index[h.oid] = pos
+        self._tfile.write(h.asString())
+        self._tfile.write(data)
+''', '''        self._tfile.write(h.asString())
+        self._tfile.write(data)
+        self.index[h.oid] = pos
+''')
